@@ -65,6 +65,8 @@ func shapesFor(tier string) []Shape {
 	for _, outPkg := range []bool{false, true} {
 		out = append(out,
 			Shape{OutPkg: outPkg, Ifaces: []IShape{{Methods: []MShape{{NP: 2, NilP: true, Rets: []RetKind{RPlain}}, {NP: 2, NilP: true, Variadic: true, VarElem: "named"}}}}},
+			Shape{OutPkg: outPkg, Ifaces: []IShape{{NTP: 1, Methods: []MShape{{NP: 1, TPType: true, Rets: []RetKind{RPlain}}}}}},
+			Shape{OutPkg: outPkg, Ifaces: []IShape{{NTP: 1, TPLower: true, Methods: []MShape{{NP: 1, TPType: true, Rets: []RetKind{RPlain}}}}}},
 			Shape{OutPkg: outPkg, Ifaces: []IShape{{Methods: nil}}},
 			Shape{OutPkg: outPkg, Ifaces: []IShape{{Methods: nil, NTP: 1}}},
 			Shape{OutPkg: outPkg, Ifaces: []IShape{{Methods: []MShape{{NP: 0}}}}},
